@@ -237,6 +237,17 @@ func (g *cgen) step(it string, depth int) {
 			g.line("tr.V(%d, %s.Current())", g.nid(), it)
 		}
 		g.feats["pull"] = true
+	case r < 70 && !strings.ContainsAny(it, "([<"):
+		// pull-style closures over the iterator VARIABLE, which is reassigned afterwards
+		n, c := fmt.Sprintf("next%d", g.nid()), fmt.Sprintf("cur%d", g.nid())
+		g.line("%s := func() bool { return %s.MoveNext() }", n, it)
+		g.line("%s := func() int { return %s.Current() }", c, it)
+		g.line("tr.V(%d, %s())", g.nid(), n)
+		g.line("%s = §src(2, %d)", it, g.nid()*100)
+		g.line("for %s() {", n)
+		g.line("\ttr.V(%d, %s())", g.nid(), c)
+		g.line("}")
+		g.feats["pull-closures"] = true
 	case r < 75:
 		g.line("tr.V(%d, §first(%s))", g.nid(), it)
 		g.feats["return-from-range-in-func"] = true
